@@ -513,6 +513,12 @@ where
                 Ok(())
             }
             EVENT_DISCONNECTED => {
+                // Before it is safe to destroy the event, we need to synchronize with whatever
+                // the receiver did to the event before it marked it as disconnected (e.g. it may
+                // have removed its waker). The swap above is `Relaxed`, so without this fence
+                // those accesses would not happen-before the cleanup.
+                atomic::fence(atomic::Ordering::Acquire);
+
                 // We are the last endpoint remaining, so we will clean up.
                 Err(Disconnected)
             }
